@@ -23,3 +23,12 @@ impl ConnectionHandle {
         self.id
     }
 }
+
+#[cfg(feature = "verif-hooks")]
+impl ConnectionHandle {
+    /// Returns the numeric id of the connection, as it appears in a
+    /// [`VerifSnapshot`](crate::verif::VerifSnapshot).
+    pub fn verif_id(&self) -> usize {
+        self.id.verif_id()
+    }
+}
